@@ -94,3 +94,6 @@ def check(run):
     for s in SHELLS + ['range']:
         groups.append(('C11/rate/' + s, (lambda cl, s=s: b_rate(cl, mod, H, s)), ()))
     bcheck.run_groups(run, groups)
+    # run-time side: the two accessors return the stored value when positive, else an error (Engine A, shared with C01)
+    from checks import c01
+    c01.accessors(run, only_fns=('AugerRate', 'AugerYield'), prefix='C11')
